@@ -10,6 +10,7 @@ RULE = ('random histories of the grammar setters*;bake+;(init+;exchange+)* over 
         'random points, run on real objects and on the Lean life-cycle model; every attribute after every step: '
         'model term none <=> attribute None, equal terms => equal content hashes; oracle: round trip at every stage x '
         'continue both objects; non-trivial = history with a restore before the last stage')
+RULE = RULE + '; exchanges with recalculate=False and other parameters, setters after the bake (then saved, then baked again), re-assignment of wall subsets, separate incoming sampling in the multi-direction pool'
 ASSUMPTIONS = ['equal terms denote equal arrays: kernels are deterministic pure functions (numerical correspondence); tolist/np.array and the pyfar .far codec are library code tied by the hashes',
                'model footprints tied to the source by the generated read/write sets (Generated/Lifecycle.lean)']
 EXPLANATION = 'restored and original differ at most in the unsaved _source; identical after the next init; receiver collection identical. D8 (direct sound after restore) is a known finding.'
